@@ -81,57 +81,68 @@ def Seq.getProd (count x : Expr) : Seq → Except Err Expr
   | .custom t (.sym i) => pure (big .prod (bin .mul t x) i (num 0) (bin .sub count (num 1)))
   | .custom _ _ => throw (.internal "ValueError")
 
-/-- `_process_repeated_resources` -/
-def processRepeatedResources (rep : Repetition) (resources : List Resource) (children : List CRoutine) :
+/-- `_process_repeated_resources`, given the compiled children as (name, [(resource name, type)]): after the fix it only
+    looks at names and types; the child's compiled values are referred to by name -/
+def processRepeatedResources (rep : Repetition) (resources : List Resource) (children : List (String × List (String × ResTy))) :
     Except Err (List Resource) :=
   match children with
-  | [child] => do
+  | [(childName, childRes)] => do
     for r in resources do
-      if !Resource.has child.resources r.name then throw (.internal "AssertionError")
+      if !(childRes.any fun x => x.1 = r.name) then throw (.internal "AssertionError")
       match r.value with
-      | .sym s => if s ≠ child.name ++ "." ++ r.name then throw (.internal "AssertionError")
+      | .sym s => if s ≠ childName ++ "." ++ r.name then throw (.internal "AssertionError")
       | _ => throw (.internal "AssertionError")
-    child.resources.foldlM (fun (acc : List Resource) r => do
-      -- the child's resource is referred to by name; its compiled value is substituted together with
-      -- the wrapper's own symbols in the single simultaneous step of `evaluateResources`
-      let ref := Expr.sym (child.name ++ "." ++ r.name)
-      match r.ty with
-      | .additive => pure (Resource.set acc { r with value := ← rep.seq.getSum rep.count ref })
-      | .multiplicative => pure (Resource.set acc { r with value := ← rep.seq.getProd rep.count ref })
+    childRes.foldlM (fun (acc : List Resource) nt => do
+      let ref := Expr.sym (childName ++ "." ++ nt.1)
+      match nt.2 with
+      | .additive => pure (Resource.set acc ⟨nt.1, nt.2, ← rep.seq.getSum rep.count ref⟩)
+      | .multiplicative => pure (Resource.set acc ⟨nt.1, nt.2, ← rep.seq.getProd rep.count ref⟩)
       | .qubits =>
         (match rep.seq with
          | .constant _ => pure acc
-         | _ => throw (.compilation s!"Can't process resource \"{r.name}\" of type \"qubits\" in repetitive structure."))
-      | .other => throw (.compilation s!"Can't process resource \"{r.name}\" of type \"other\" in repetitive structure.")) []
+         | _ => throw (.compilation s!"Can't process resource \"{nt.1}\" of type \"qubits\" in repetitive structure."))
+      | .other => throw (.compilation s!"Can't process resource \"{nt.1}\" of type \"other\" in repetitive structure.")) []
   | _ => throw (.internal "AssertionError")
+
+def childSigs (cs : List CRoutine) : List (String × List (String × ResTy)) :=
+  cs.map fun c => (c.name, c.resources.map fun r => (r.name, r.ty))
 
 /-! ### `_compile.py` -/
 
+/-- the order in which `_compile_local_variables` visits the variables (`TopologicalSorter(...).static_order()`);
+    `none` = `CycleError` -/
+def localOrder (locals : Dict Expr) : Option (List String) :=
+  Graph.staticOrder (locals.map fun kv => (kv.1, ((Expr.fv kv.2).filter locals.contains).eraseDups))
+
+/-- one step of the loop, generic in what "compiling a definition in the scope built so far" means -/
+def localsStep {α} (inst : Dict α → Expr → α) (locals : Dict Expr) (st : Dict α × Dict α) (v : String) : Dict α × Dict α :=
+  match locals.get? v with
+  | some e =>
+    let cv := inst st.2 e
+    (st.1.set v cv, st.2.set v cv)
+  | none => st
+
 /-- `_compile_local_variables`: any topological order of the dependency graph gives the same map -/
 def compileLocalVariables (locals : Dict Expr) (inputs : Dict Expr) : Except Err (Dict Expr) :=
-  let g : Graph.G := locals.map fun kv => (kv.1, ((Expr.fv kv.2).filter locals.contains).eraseDups)
-  match Graph.staticOrder g with
+  match localOrder locals with
   | none => throw (.internal "CycleError")
-  | some order =>
-    let (compiled, _) := order.foldl (fun (st : Dict Expr × Dict Expr) v =>
-      match locals.get? v with
-      | some e =>
-        let cv := Expr.subst st.2 e
-        (st.1.set v cv, st.2.set v cv)
-      | none => st) (([] : Dict Expr), inputs)
-    pure compiled
+  | some order => pure (order.foldl (localsStep Expr.subst locals) (([] : Dict Expr), inputs)).1
 
-/-- `ParameterTree`: `self` is the `None` entry, `kids` the entries of the children -/
-structure PTree where
-  self : Dict Expr
-  kids : Dict (Dict Expr)
+/-- `ParameterTree`: `self` is the `None` entry, `kids` the entries of the children.  Generic in the kind of value
+    stored (expressions for `_compile`, semantic values for the reference evaluator). -/
+structure PTreeG (α : Type) where
+  self : Dict α
+  kids : Dict (Dict α)
 deriving Inhabited
 
+abbrev PTree := PTreeG Expr
+
 /-- a (possibly partial) tree produced by the helper functions; `none` key = current routine -/
-abbrev PUpdate := List (Option String × String × Expr)
+abbrev PUpdateG (α : Type) := List (Option String × String × α)
+abbrev PUpdate := PUpdateG Expr
 
 /-- `_merge_param_trees(tree, update)`: only keys already in `tree` are kept -/
-def PTree.mergeUpd (t : PTree) (u : PUpdate) : PTree :=
+def PTreeG.mergeUpd {α} (t : PTreeG α) (u : PUpdateG α) : PTreeG α :=
   u.foldl (fun t e =>
     match e.1 with
     | none => { t with self := t.self.set e.2.1 e.2.2 }
@@ -149,12 +160,18 @@ def compileLinkedParams (inputs : Dict Expr) (linked : Dict (List (String × Str
 def connectionsFrom (conns : List (Endpoint × Endpoint)) (src : Option String) : List (String × Endpoint) :=
   (conns.filter (·.1.routine = src)).map fun c => (c.1.port, c.2)
 
-/-- `_param_tree_from_compiled_ports` (raises `KeyError` when the source port was not compiled) -/
-def paramTreeFromCompiledPorts (cm : List (String × Endpoint)) (ports : List Port) : Except Err PUpdate :=
+/-- `_param_tree_from_compiled_ports` on a dictionary port name ↦ size (raises `KeyError` when the source port was not
+    compiled); generic in the kind of size -/
+def paramTreeFromSizes {α} (cm : List (String × Endpoint)) (sizes : Dict α) : Except Err (PUpdateG α) :=
   cm.mapM fun st =>
-    match Port.find? ports st.1 with
-    | some p => pure (st.2.routine, "#" ++ st.2.port, p.size)
+    match sizes.get? st.1 with
+    | some s => pure (st.2.routine, "#" ++ st.2.port, s)
     | none => throw (.internal "KeyError")
+
+def portSizes (ports : List Port) : Dict Expr := ports.map fun p => (p.name, p.size)
+
+def paramTreeFromCompiledPorts (cm : List (String × Endpoint)) (ports : List Port) : Except Err PUpdate :=
+  paramTreeFromSizes cm (portSizes ports)
 
 /-- `BaseRoutine.sorted_children_order` (after the fix: predecessors in sorted order) -/
 def sortedChildrenOrder (names : List String) (order : List String) (conns : List (Endpoint × Endpoint)) :
@@ -210,7 +227,7 @@ def repStep (rep : Option Repetition) (rs : List Resource) (ccs : List CRoutine)
   match rep with
   | none => pure (rs, none)
   | some rp => do
-    let rs' ← processRepeatedResources rp rs ccs
+    let rs' ← processRepeatedResources rp rs (childSigs ccs)
     let rp' ← rp.substituteSymbols pmSelf
     pure (rs', some rp')
 
